@@ -775,7 +775,33 @@ def r04_20(ctx: Ctx, rule: str = "R04.20") -> None:
                   "never (or prematurely) compared", construct="delivered count accounting")
 
 
+def r04_21(ctx: Ctx, rule: str = "R04.21") -> None:
+    """(a) test() certifies the archive after the LAST packed stream: the return that can answer True stands outside every loop of the function
+    (inside the loop over the streams it answers after the first one - damage in a later stream is certified).  (b) the CRC record of the folders
+    is written back whenever SOME folder has a CRC (`any(<vector>)` over the very vector that is written): with `all(...)` an append drops the
+    folder CRCs of an archive where only some folders carry one, and damage in those folders' members is no longer noticed."""
+    t = shared.szf(ctx, "test")
+    rets = [r for r in walk(t.node) if isinstance(r, ast.Return) and r.value is not None and any(isinstance(x, ast.Constant) and x.value is True for x in ast.walk(r.value))]
+    ctx.floor(rule, len(rets), 1, "certifying return of test()")
+    for r in rets:
+        ctx.check(not q.enclosing_loops(t, r), rule, t, r, "test() certifies only after every packed stream was looked at",
+                  f"`{norm(r)}` stands inside the loop over the packed streams: test() answers after the first stream - a flipped bit in the second packed stream of an archive that was "
+                  "appended to is certified True although its members no longer extract", construct="test() answers inside the stream loop")
+    w = ctx.prog.func("archiveinfo", "UnpackInfo.write")
+    cfg = cfg_of(w.node)
+    marks = [c for c in q.calls(w) if attr_tail(c) == "write_byte" and len(c.args) > 1 and norm(c.args[1]) == "PROPERTY.CRC"]
+    ctx.floor(rule, len(marks), 1, "CRC record in UnpackInfo.write")
+    for mk in marks:
+        vecs = [c for c in q.calls(w) if attr_tail(c) == "write_boolean" and len(c.args) > 1 and cfg.dominates(q.node_for(w, mk), q.node_for(w, c))]
+        vname = norm(vecs[0].args[1]) if vecs else None
+        ok = any(pol and isinstance(cd, ast.Call) and dotted(cd.func) == "any" and cd.args and norm(cd.args[0]) == vname for cd, pol in q.facts_at(w, mk))
+        ctx.check(ok, rule, w, mk, "the folders' CRC record is written whenever some folder has a CRC",
+                  f"the CRC record of UnpackInfo.write is not written under `any({vname})`: when only some folders carry a CRC (an older multi-member folder without per-member digests next to "
+                  "py7zr's own folders) an append drops it, and damage in that folder's members extracts as wrong content while testzip() answers None", construct="folder CRC record condition")
+
+
 def run(ctx: Ctx) -> None:
+    r04_21(ctx)
     r04_20(ctx)
     r04_18(ctx)
     r04_17(ctx)
